@@ -4858,13 +4858,27 @@ class Symbol:
         # choice: it is a choice symbol, which is resolved on choice level
         # _sdkconfig_value is None: symbol is not present in sdkconfig (shouldn't happen, but just in case)
         # resolve_vis() == 0: symbol is not visible, so we don't need to resolve its defaults
-        if (
-            self._defaults_resolved
-            or self._user_value is not None
-            or self.choice
-            or self._sdkconfig_value is None
-            or self.resolve_vis() == 0
-        ):
+        if self._defaults_resolved:
+            return
+
+        if self._sdkconfig_value is None and self._user_value is None and not self.choice:
+            # Not present in sdkconfig (e.g. a symbol added in a newer Kconfig), so there is nothing to compare.
+            # A symbol that depends on this one still needs the symbols *this* one depends on to be resolved
+            # first, otherwise it would be judged under their Kconfig defaults instead of their stored ones.
+            self._defaults_resolved = True
+            for sc in self.dependencies:
+                if not sc.is_constant:
+                    sc.resolve_defaults()
+            return
+
+        if self.choice:
+            # Choice symbols are resolved on choice level. Whoever depends on this symbol needs that to
+            # have happened first (a choice that the user has picked has nothing to resolve).
+            if self.choice._user_selection is None:
+                self.choice.resolve_defaults()
+            return
+
+        if self._user_value is not None or self._sdkconfig_value is None or self.resolve_vis() == 0:
             return
 
         for sc in self.dependencies:
@@ -6109,7 +6123,13 @@ class Choice:
         # if choice has a user selection but some of its symbols have default value,
         # "user-set" those symbols manually.
         # As the choice will become fully user-set, we will skip the rest of the "default value" logic.
-        if self._defaults_resolved or self.resolve_vis() == 0:
+        if self._defaults_resolved:
+            return
+        # Set right away: resolving what the choice depends on can lead back here through a choice symbol
+        self._defaults_resolved = True
+        if self.resolve_vis() == 0:
+            # May become visible once other defaults are resolved; try again then
+            self._defaults_resolved = False
             return
 
         if self._user_selection is not None:
@@ -6125,6 +6145,12 @@ class Choice:
                 # constant symbols have their fixed value and are free - no need to check them
                 continue
             sc.resolve_defaults()
+
+        # The Kconfig selection depends on the visibility of every choice symbol, so whatever their
+        # prompts depend on has to be resolved before the comparison - not only for the symbol that is
+        # selected in sdkconfig. Otherwise the outcome depends on the order in which choices are visited.
+        for sym in self.syms:
+            sym.resolve_vis()
 
         # syms that should be y according to sdkconfig and are visible
         # NOTE: This is tricky; we dont want to resolve sym's value here,
